@@ -107,6 +107,15 @@ CHECKS = {
             "Python's json/csv/html modules are the reference decoders; JSON member order, CSV terminator and "
             "colours are don't-care; tabs/lines only when no value contains the separator.",
             "DESIGN.md 4 C09"),
+    "C12": ("exploration",
+            "property-based testing (Hypothesis): generated names over a metacharacter alphabet x derived patterns, "
+            "differential against a direct recursive wildcard matcher / exact comparison / Python re; metamorphic "
+            "cache probe",
+            "Every generated (name set, operator, pattern) is run on the real binary in a real directory and compared "
+            "with a reference that never translates to regex; negative operators must be exact complements; the same "
+            "pattern text under two operator families in one query must behave as each family alone.",
+            "ASCII names; `=` without wildcard is exact; Python re and Rust regex agree on the small regex subset used.",
+            "DESIGN.md 4 C12"),
 }
 
 PENDING = {}
